@@ -76,6 +76,10 @@ impl WriteBatch {
 
 struct KeyValueStoreState {
     seq_no: u64,
+    // The largest sequence number such that it, and every sequence number before it, has been
+    // completely inserted.  Reads use this, not seq_no, as their snapshot:  seq_no counts
+    // writes that are still being inserted into the memtable.
+    visible_seq_no: u64,
     imm: Option<Arc<MemTable>>,
     imm_trigger: u64,
     mem: Arc<MemTable>,
@@ -120,6 +124,7 @@ impl KeyValueStore {
         seq_no += 1;
         let state = Mutex::new(KeyValueStoreState {
             seq_no,
+            visible_seq_no: seq_no,
             imm,
             imm_trigger,
             mem,
@@ -239,10 +244,12 @@ impl KeyValueStore {
                 ))?;
                 state.mem_seq_no = state.seq_no;
                 state.seq_no += 1;
+                let rollover_seq_no = state.seq_no;
                 let mut wait_guard = self.wait_list.link(());
                 while !wait_guard.is_head() {
                     state = wait_guard.naked_wait(state);
                 }
+                state.visible_seq_no = std::cmp::max(state.visible_seq_no, rollover_seq_no);
                 drop(wait_guard);
                 self.wait_list.notify_head();
                 (imm, imm_log, imm_path, imm_trigger)
@@ -347,7 +354,7 @@ impl KeyValueStore {
     }
 
     pub fn write(&self, mut batch: WriteBatch) -> Result<(), SError> {
-        let (mut wait_guard, memtable, log) = {
+        let (mut wait_guard, memtable, log, seq_no) = {
             let mut state = self.state.lock().unwrap();
             let wait_guard = self.wait_list.link(());
             let seq_no = state.seq_no + 1;
@@ -362,6 +369,7 @@ impl KeyValueStore {
                 wait_guard,
                 Arc::clone(&state.mem),
                 Arc::clone(&state.mem_log),
+                seq_no,
             )
         };
         let mut log_batch = sst::log::WriteBatch::default();
@@ -376,6 +384,8 @@ impl KeyValueStore {
         while !wait_guard.is_head() {
             state = wait_guard.naked_wait(state);
         }
+        // We are the oldest write in flight, so everything up to seq_no is in the memtable.
+        state.visible_seq_no = std::cmp::max(state.visible_seq_no, seq_no);
         drop(wait_guard);
         self.wait_list.notify_head();
         Ok(())
@@ -387,7 +397,7 @@ impl KeyValueStore {
             let mem = Arc::clone(&state.mem);
             let imm = state.imm.clone();
             let version = self.tree.take_snapshot();
-            (mem, imm, version, state.seq_no)
+            (mem, imm, version, state.visible_seq_no)
         };
         *is_tombstone = false;
         let ret = mem.load(key, timestamp, is_tombstone)?;
@@ -414,7 +424,7 @@ impl KeyValueStore {
             let mem = Arc::clone(&state.mem);
             let imm = state.imm.clone();
             let version = self.tree.take_snapshot();
-            (mem, imm, version, state.seq_no)
+            (mem, imm, version, state.visible_seq_no)
         };
         let mut cursors: Vec<Box<dyn Cursor>> = Vec::with_capacity(3);
         let mut mem_scan = mem.range_scan(start_bound, end_bound, timestamp)?;
